@@ -27,6 +27,22 @@ def run(ctx: Ctx) -> int:
                        "confirmed" if not bad else "error", bounds={"cases": n_val}, detail={"mismatches": bad[:10]}))
     if bad:
         ctx.harness_errors.append("semantics tables disagree with their references: " + "; ".join(bad[:3]))
+    # trusted-table validation, second leg: the HUGR-op table against an independent implementation of the same ops
+    # (the selene emulator of the installed guppylang 1.0.4), and the E5 interpreter's op functions against the table
+    from lib import emu_oracle
+
+    ev = emu_oracle.validate(ctx.pick(12, 80), seed=ctx.seed)
+    ctx.add(Obligation("tables: HUGR op semantics agree with the installed emulator on concrete operands", "concrete",
+                       "error" if ev["mismatches"] else ("not_confirmed" if ev["error"] or not ev["cases"] else "confirmed"),
+                       bounds={"cases": ev["cases"], "ops": ev["ops"], "left_out": "idivmod_u, ffloor, fceil, fabs, fpow (not executable on the installed emulator)"},
+                       wall_s=ev["wall_s"], detail={"mismatches": ev["mismatches"][:10], "unmapped": ev["unmapped"], "error": ev["error"]}))
+    if ev["mismatches"]:
+        ctx.harness_errors.append("HUGR op table disagrees with the installed emulator: " + "; ".join(ev["mismatches"][:3]))
+    n5, bad5 = emu_oracle.validate_e5_ops(ctx.pick(100, 1000), seed=ctx.seed)
+    ctx.add(Obligation("tables: E5 interpreter op functions agree with the HUGR op table inside their claim", "concrete",
+                       "confirmed" if not bad5 else "error", bounds={"cases": n5}, detail={"mismatches": bad5[:10]}))
+    if bad5:
+        ctx.harness_errors.append("E5 op functions disagree with the HUGR op table: " + "; ".join(bad5[:3]))
     t_bv, t_int = ctx.pick(25, 120), ctx.pick(30, 300)
     t_fp = ctx.pick(150, 900)
     from lib import e3_run
